@@ -262,6 +262,128 @@ class ChartGen:
         return True
 
 
+# ---- statecharts with a past: used, then restructured through the editing API, then used again ----
+def warm(sc):
+    """Use a `Statechart` the way a client does before it edits it: ask every structural question
+    and run it.  Deterministic; whatever the statechart remembers from this must not matter later."""
+    from sismic.interpreter import Interpreter
+    from sismic.model import Event
+    names = list(sc.states)
+    for n in names:
+        for q in (sc.depth_for, sc.ancestors_for, sc.descendants_for, sc.children_for, sc.parent_for,
+                  sc.transitions_from, sc.transitions_to, sc.state_for):
+            try:
+                q(n)
+            except Exception:       # noqa
+                pass
+        for m in names[:6]:
+            try:
+                sc.least_common_ancestor(n, m)
+            except Exception:       # noqa
+                pass
+    for q in (sc.events_for, lambda: sc.transitions, lambda: sc.root, lambda: sc.leaf_for(names)):
+        try:
+            q()
+        except Exception:           # noqa
+            pass
+    try:
+        it = Interpreter(sc)
+        for e in EVENTS:
+            it.queue(Event(e, v=0, b=False))
+        it.execute(max_steps=12)
+    except Exception:               # noqa
+        pass
+
+
+def apply_edits(sc, edits):
+    from sismic.exceptions import StatechartError
+    for e in edits:
+        try:
+            if e[0] == 'move':
+                sc.move_state(e[1], e[2])
+            elif e[0] == 'rename':
+                sc.rename_state(e[1], e[2])
+            elif e[0] == 'remove':
+                sc.remove_state(e[1])
+            elif e[0] == 'initial':
+                sc.state_for(e[1]).initial = e[2]
+            elif e[0] == 'memory':
+                sc.state_for(e[1]).memory = e[2]
+        except StatechartError:
+            pass
+
+
+def plan_edits(r, sc, need_wf=True):
+    """One to three restructuring edits of `sc` (applied in place through the API), followed by the
+    assignments of `initial` / `memory` a client makes to keep the chart meaningful.  Returns the
+    list of edits, or None when the result does not validate."""
+    from sismic.exceptions import StatechartError
+    edits = []
+
+    def do(e):
+        edits.append(e)
+        apply_edits(sc, [e])
+
+    def owners_ok(n):
+        return isinstance(sc.state_for(n), (BasicState, CompoundState, OrthogonalState)) and \
+            not isinstance(sc.state_for(n), FinalState)
+
+    for _ in range(r.choice([1, 1, 2, 3])):
+        names = [n for n in sc.states if n != sc.root]
+        if not names:
+            break
+        c = r.random()
+        if c < 0.65:
+            # prefer moving a state that has something below it
+            deep = [n for n in names if sc.children_for(n)]
+            a = r.choice(deep) if deep and r.random() < 0.7 else r.choice(names)
+            if isinstance(sc.state_for(a), (ShallowHistoryState, DeepHistoryState)):
+                continue
+            banned = set([a] + sc.descendants_for(a))
+            cands = [b for b in sc.states if b not in banned and b != sc.parent_for(a) and
+                     (isinstance(sc.state_for(b), CompoundState) or
+                      (isinstance(sc.state_for(b), OrthogonalState) and owners_ok(a)))]
+            if not cands:
+                continue
+            do(['move', a, r.choice(cands)])
+        elif c < 0.85:
+            a = r.choice(names)
+            # a new name that sorts elsewhere than the old one
+            new = r.choice(['a', 'm', 'z']) + a + r.choice(['', 'x'])
+            if new in sc.states:
+                continue
+            do(['rename', a, new])
+        else:
+            leaves = [n for n in names if not sc.children_for(n)]
+            if leaves:
+                do(['remove', r.choice(leaves)])
+    if not edits:
+        return None
+    # what the edits reset, a client sets again
+    for n in list(sc.states):
+        st = sc.state_for(n)
+        if isinstance(st, CompoundState):
+            kids = [k for k in sc.children_for(n)]
+            plain = [k for k in kids if not isinstance(sc.state_for(k), (ShallowHistoryState, DeepHistoryState))]
+            if (st.initial is None or st.initial not in kids) and plain:
+                do(['initial', n, r.choice(plain)])
+        if isinstance(st, (ShallowHistoryState, DeepHistoryState)):
+            sibs = [k for k in sc.children_for(sc.parent_for(n)) if k != n and
+                    not isinstance(sc.state_for(k), (ShallowHistoryState, DeepHistoryState))]
+            if (st.memory is None or st.memory not in sibs) and sibs:
+                do(['memory', n, r.choice(sibs)])
+    try:
+        sc.validate()
+    except StatechartError:
+        return None
+    if need_wf:
+        from . import oracles
+        from .encode import ChartEnc
+        if not oracles.wf_json(ChartEnc(sc).json):
+            return None
+    return edits
+
+
 def gen_ops(r, knobs, n_ops, slot=0, t0=0):
     """A history for one interpreter: queue / setvar / exec with a monotone clock."""
     ops = []
